@@ -362,13 +362,18 @@ def run_agent(rp, events, finalize, scratch, block, files=0):
         elif finalize:
             # (an exception that escapes finalize() is only logged by the component's work loop: the agent ends without
             #  having written its final state)
+            if finalize == 'push_fails':
+                # the channel is closed under the final notification (Agent_0.stop() closes the session from another thread
+                # while the worker runs finalize()): the push raises; what the agent wrote down for the bootstrapper stays
+                def closed(*a_, **k_): raise RuntimeError('publisher closed')
+                a.advance = closed
             try:
                 a.finalize()
                 signal = open('killme.signal').read().strip()
             except Exception as e:
                 signal = open('killme.signal').read().strip() if os.path.exists('killme.signal') else 'finalize-raised:%s' % type(e).__name__
             pushed = [t['state'] for t in a.advanced if isinstance(t, dict)]
-            if pushed != [signal]:
+            if pushed != [signal] and finalize != 'push_fails':
                 signal = 'MISMATCH %s vs %s' % (pushed, signal)
         script = 'for RPV_AGENT_EXITCODE in 1 0 143; do (\n%s\n); done' % block
         out = subprocess.run(['bash', '-c', script], stdout=subprocess.PIPE, stderr=subprocess.STDOUT, text=True).stdout
@@ -507,6 +512,19 @@ def run(ctx):
                 if bad:
                     ctx.fail(bad[0], bad[1], {'kind': 'agent', 'events': list(evs), 'finalize': fin, 'files': nfile % 7},
                              observed=res)
+    # ... and with the final notification failing (the session is closed under it): the cause the agent determined still
+    # reaches the bootstrapper
+    npf = 0
+    for n in range(0, 3):
+        for evs in itertools.product(EVENTS, repeat=n):
+            res = run_agent(rp, list(evs), 'push_fails', ctx.scratch, block, files=0)
+            npf += 1
+            ctx.case({'op': 'cause', 'events': list(evs), 'finalize': 'push_fails'}, nontrivial=n > 0)
+            bad = monitor_agent(list(evs), 'push_fails', res)
+            if bad:
+                ctx.fail('final-push-fails:' + bad[0], bad[1], {'kind': 'agent', 'events': list(evs), 'finalize': 'push_fails', 'files': 0}, observed=res)
+    ctx.obligation('Agent_0.finalize with the final notification failing (channel closed under it): the final state the bootstrapper '
+                   'reports is still the one the cause calls for (%d event sequences)' % npf, 'tie', True, '')
     ctx.sample({'events': ops[-3]['events'], 'finalize': ops[-3]['finalize'], 'observed': impl[-3]}, limit=3)
     common.compare(ctx, 'cause', ops, impl, what='Agent_0 cause -> killme.signal -> bootstrap_0.sh (exhaustive, len<=4)')
     ctx.exhaustive = False
